@@ -13,7 +13,7 @@ import (
 func init() {
 	register(&Prop{
 		ID: "C20",
-		Rule: "GenerateRandomExpr is called for seeds x levels 0..60 x both result types x all 8 combinations of EnableVariable/EnableCondition/EnableTryEval x variable maps (none; integers incl. 0, +-1 and extremes; booleans; DNE variables; mixtures; unsupported value types). " +
+		Rule: "GenerateRandomExpr is called for seeds x levels 0..60 x both result types x all 8 combinations of EnableVariable/EnableCondition/EnableTryEval x variable maps (none; integers incl. 0, +-1 and extremes; booleans; DNE variables; mixtures; unsupported value types); every fifth case reuses its option objects after the maps behind them were updated in place (values changed, names removed/added). " +
 			"The returned text is parsed by the harness's own reader and evaluated by the independent reference (plain evaluation without DNE variables, three-valued evaluation with them); the reported Res must equal that value. " +
 			"The text must compile with the supplied variables and Eval (TryEval with DNE variables) must not fail; engine agreement is recorded as well. " +
 			"A case is non-trivial when level >= 3 and a variable, an if or a DNE variable occurs; distinct = distinct (generated text, variable map).",
@@ -34,7 +34,7 @@ func init() {
 					}
 				}
 			}
-			for _, c := range []string{"with_variables", "with_if", "with_dne", "res_dne", "kleene_checked", "plain_checked"} {
+			for _, c := range []string{"with_variables", "with_if", "with_dne", "res_dne", "kleene_checked", "plain_checked", "option_reused_after_map_change"} {
 				if m.C(c) == 0 {
 					u = append(u, c+" = 0")
 				}
@@ -119,6 +119,46 @@ func c20Run(w *W, idx int) {
 	if len(dne) > 0 {
 		opts = append(opts, eval.GenVariables(dne))
 	}
+	// Option reuse: the GenVariables option reads its map when it is applied, so one option object may be used for many
+	// generator calls while its map is updated in between (values changed, names removed and added). Every fifth case
+	// first spends the options on a throw-away call with the old contents.
+	reused := false
+	if idx%5 == 2 && len(vals) > 0 {
+		guard(func() (eval.Value, error) {
+			eval.GenerateRandomExpr(level, rand.New(rand.NewSource(seed^0x5bd1e995)), opts...)
+			return nil, nil
+		})
+		for k, v := range vals {
+			switch x := v.(type) {
+			case int64:
+				if x > -1000 && x < 1000 {
+					vals[k] = x*3 + int64(r.Intn(7)) - 3
+				}
+			case int:
+				vals[k] = x + 1 + r.Intn(3)
+			case int32:
+				vals[k] = x - 1 - int32(r.Intn(3))
+			case bool:
+				if r.Intn(2) == 0 {
+					vals[k] = !x
+				}
+			}
+		}
+		if r.Intn(2) == 0 {
+			delete(vals, "n3")
+			delete(vals, "bt2")
+		}
+		if r.Intn(2) == 0 {
+			vals["n9"] = int64(r.Intn(19) - 9)
+			vals["b9"] = r.Intn(2) == 0
+		}
+		if len(dne) > 0 && r.Intn(3) == 0 {
+			delete(dne, "dne_2")
+			dne["dne_3"] = eval.DNE
+		}
+		reused = true
+		w.Inc("option_reused_after_map_change")
+	}
 	var res eval.GenExprResult
 	gen := rand.New(rand.NewSource(seed))
 	go1 := guard(func() (eval.Value, error) { res = eval.GenerateRandomExpr(level, gen, opts...); return nil, nil })
@@ -133,8 +173,8 @@ func c20Run(w *W, idx int) {
 			names = append(names, k+"=DNE")
 		}
 		sort.Strings(names)
-		return fmt.Sprintf("GenerateRandomExpr(level=%d, seed=%d, type=%d, variable=%v condition=%v tryeval=%v, variables %v)\nexpression: %s\nreported result: %v",
-			level, seed, genType, optCombo&1 != 0, optCombo&2 != 0, optCombo&4 != 0, names, firstN(res.Expr, 3000), res.Res)
+		return fmt.Sprintf("GenerateRandomExpr(level=%d, seed=%d, type=%d, variable=%v condition=%v tryeval=%v, variables %v, options reused after the maps were updated in place: %v)\nexpression: %s\nreported result: %v",
+			level, seed, genType, optCombo&1 != 0, optCombo&2 != 0, optCombo&4 != 0, names, reused, firstN(res.Expr, 3000), res.Res)
 	}
 	if go1.Panic != nil {
 		w.Fail("generator-panic/"+normPanic(go1.Panic)+"@"+panicSite(go1.Stack), "GenerateRandomExpr panicked: %v\n%s\n%s", go1.Panic, desc(), go1.Stack)
